@@ -92,6 +92,45 @@ def sweep_kernels(db, rep, tier):
     rep.floor('A.idx.bound', n, 110)
 
 
+def sweep_solver(db, rep, tier):
+    """A.idx.bound for the solver object: the abstract runs of the solver checks (node-indexed and interpolating
+    queries for a query below / on every node / between nodes / above, grid set-up and lookup, derivative callback,
+    Evolve, moves, re-initialisation) are repeated here with exact-extent arrays for x, state, estate, dstate and the
+    flat system array; their functional verdicts are discarded, an access outside an extent is reported"""
+    import c04
+    import c05
+    import c10
+    import c17
+    from fixtures import Scratch
+    jobs = [('GetExpectationValue (node forms)', lambda r: c05.check_node_forms(db, r)),
+            ('GetIntermediateState / GetExpectationValueD (every position of x)', lambda r: c05.check_interpolating(db, r)),
+            ('Set_xrange(a,b,scale)', lambda r: c17.check_formulas(db, r)),
+            ('Set_xrange(vector)', lambda r: c17.check_vector_overload(db, r)),
+            ('Get_i (every position of x)', lambda r: c17.check_lookup(db, r, 'quick')),
+            ('Evolve / clock', lambda r: c10.check_clock(db, r)),
+            ('ini / re-initialisation', lambda r: c10.check_ini(db, r)),
+            ('move construction / assignment', lambda r: c10.check_moves(db, r))]
+    for cfg in (c04.CONFIGS_THOROUGH if tier == 'thorough' else c04.CONFIGS_QUICK):
+        jobs.append(('RHS / Derive %s' % (cfg,), lambda r, cfg=cfg: c04.check_config(db, r, cfg, 'quick')))
+    n = 0
+    for label, job in jobs:
+        n += 1
+        sc = Scratch()
+        sc.floor = lambda *a, **k: None
+        sc.sample = lambda *a, **k: None
+        sc.fn = lambda *a, **k: None
+        sc.ok = lambda *a, **k: None
+        sc.break_ = lambda *a, **k: None
+        try:
+            job(sc)
+            rep.ok('A.idx.bound')
+        except Thrown:
+            rep.ok('A.idx.bound')  # a library exception ends the run; what was accessed before it stayed inside the extents
+        except OutOfBounds as e:
+            rep.fail('A.idx.bound', 'solver/' + label, e.where or 'src/SQuIDS.cpp', 'every index inside the extent of its block', str(e))
+    rep.floor('A.idx.bound.solver', n, 8)
+
+
 def run(db, rep, tier):
     rep.trusted += ownrules.TRUSTED + ['GSL allocation functions and their matching free functions (table in engine/respair.py); GSL calls do not throw',
                                        'exceptions to "may throw": ' + '; '.join('%s -> %s: %s' % (k[0], k[1], v) for k, v in respair.CANNOT_THROW.items())]
@@ -121,6 +160,7 @@ def run(db, rep, tier):
     rep.ok('F.holder', max(ncls - len(set(h[0] for h in hf)), 0))
     rep.floor('F.holder', ncls, 2)
     sweep_kernels(db, rep, tier)
+    sweep_solver(db, rep, tier)
     import fixtures
     fixtures.controls_c15(rep)
     fixtures.controls_own(rep)
